@@ -312,7 +312,17 @@ def run(ctx):
                             ('seg', 'tree', lambda f: True)):
         if not any(f.family == fam and pred(f) for f in clears):
             ctx.anchor_missing(RULE, 'clear of the %s %s' % (fam, kind), PROPS, 0, 1)
+    # the reset of an element type that a collection's clear applies to each of its elements (`Chunk::clear`) is held to the same
+    # standard for the element's own fields
+    elem_clears = []
     for fn in clears:
+        for c in fn.body.calls:
+            tgt = prog.resolve(c)
+            if tgt is not None and not tgt.is_closure and not tgt.trait_item and tgt.self_adt and tgt.self_adt != fn.self_adt and tgt.family == fn.family \
+                    and tgt.body.arg_count == 1 and (tgt.body.locals[1]['ty'] or '').startswith('&mut') and tgt.self_adt in prog.adts and tgt not in elem_clears \
+                    and tgt.self_adt not in prog.pool_adts and tgt.self_adt not in prog.node_adts:
+                elem_clears.append(tgt)
+    for fn in clears + elem_clears:
         adt = prog.adts.get(fn.self_adt)
         if not adt:
             continue
@@ -320,6 +330,12 @@ def run(ctx):
         writers = {}
         for g in prog.fns.values():
             if g.self_adt != fn.self_adt:
+                # a field of this type written from outside, through a reference to one of its values (`chunk.scan_time = ..` in the
+                # iterator): a writer all the same
+                if g.info.get('mir'):
+                    for st in g.body.stores:
+                        if getattr(st, 'owner', None) == fn.self_adt and st.fields() and strip(st.root).kind != 'param':
+                            writers.setdefault(st.fields()[-1], set()).add(g.name)
                 continue
             for st in g.body.stores:
                 r = strip(st.root)
